@@ -175,6 +175,15 @@ def run(ctx, F):
               found=str([c.name for c in it]), where=where(png), key="C16.priority|scan")
     rows = ret_table(png)
     some = [(b, t, g) for b, t, g in rows if "Some" in show(t)]
-    oks = bool(some) and all(any(p.val is True for p in g) for b, t, g in some)
-    ctx.judge(oks, "C16.priority", "the first requested goal is returned", expected="Some(goal) returned under *requested == true", found=str([show(t) for b, t, g in rows]), where=where(png),
+    def by_find(t):
+        # idiom: iter_mut().find(|(_, requested)| **requested) - the first entry whose flag is set
+        for s in walk(strip(t)):
+            if s and s[0] == "call" and last_seg(s[2] or s[1]) == "find" and len(s[3]) == 2 and "requests" in show(s[3][0]):
+                cl = [x for x in walk(s[3][1]) if x and x[0] == "agg" and x[1][0] == "closure" and x[1][1] in F.fns]
+                if len(cl) == 1:
+                    rts = [strip(t2) for _, t2 in F.fns[cl[0][1][1]].flow.return_trees()]
+                    return bool(rts) and all(any(y == ("arg", 2) for y in walk(r)) and "Not(" not in show(r) for r in rts)
+        return False
+    oks = bool(some) and all(any(p.val is True for p in g) or by_find(t) for b, t, g in some)
+    ctx.judge(oks, "C16.priority", "the first requested goal is returned", expected="Some(goal) returned under *requested == true (loop with early return, or find(|r| *r))", found=str([show(t) for b, t, g in rows])[:300], where=where(png),
               key="C16.priority|first")
